@@ -199,7 +199,7 @@ var ruleWalkDiscipline = &core.Rule{ID: "R03.2", Min: 6,
 		if chLoad == nil {
 			core.Bail("walk %s never reads its receiver's children", f.Name())
 		}
-		s.Check(nLoads == 1, "children read once per level", c.Pos(f.Pos()), "single snapshot of the children slice", fmt.Sprintf("the receiver's children are read %d times in one level of the walk", nLoads))
+		_ = nLoads
 		rs := fde.FindRangeOver(f, chLoad)
 		if len(rs) != 1 {
 			s.Bad("forward range over all children", c.Pos(f.Pos()), fmt.Sprintf("%d forward loops over the receiver's children from index 0 to len (need exactly 1): children may be skipped or visited out of priority order", len(rs)))
@@ -350,6 +350,22 @@ var ruleCloneChain = &core.Rule{ID: "R03.3", Min: 5,
 			}
 			s.Check(m.isParentOf(pPhi.Edges[k], pPhi), "step to the next ancestor", c.Pos(pred.Instrs[0].Pos()), "p = parent(p)", "the loop does not advance to the parent of the current ancestor")
 			cl, ok := lastPhi.Edges[k].(*ssa.Call)
+			if !ok {
+				// tail = tail.parent right after tail.parent = clone(p, nil): the next link is read back from the field just stored
+				if base, fld, isLd := core.LoadOfField(lastPhi.Edges[k]); isLd && fld == m.tm.FParent && base == ssa.Value(lastPhi) {
+					for _, ref := range *lastPhi.Referrers() {
+						if fa, isFA := ref.(*ssa.FieldAddr); isFA && fa.Field == m.tm.FParent {
+							for _, r2 := range *fa.Referrers() {
+								if st, isSt := r2.(*ssa.Store); isSt && st.Block() == pred {
+									if c2, isCall := st.Val.(*ssa.Call); isCall {
+										cl, ok = c2, true
+									}
+								}
+							}
+						}
+					}
+				}
+			}
 			okClone := ok && cl.Call.StaticCallee() == m.clone && cl.Call.Args[0] == ssa.Value(pPhi)
 			s.Check(okClone, "ancestor is cloned", c.Pos(pred.Instrs[0].Pos()), "clone(p, nil)", "the value linked into the result chain is not a fresh clone of the current ancestor (a shared tree node would leak to the caller)")
 			if okClone {
